@@ -430,6 +430,27 @@ partial def buildSim {σ : Type} [DecidableEq σ] (A : Aut σ UInt8) (B : Aut Na
     else Array.replicate n none
   | _, _ => Array.replicate n none
 
+/-- untrusted: a shortest byte string leading the dumped automaton from its start state to `target` -/
+partial def pathTo (B : Aut Nat UInt8) (n : Nat) (anch : Bool) (target : Nat) : List UInt8 :=
+  match B.start anch with
+  | none => []
+  | some b0 =>
+    let rec go (seen : Array Bool) (frontier : List (Nat × List UInt8)) : List UInt8 :=
+      match frontier with
+      | [] => []
+      | _ =>
+        match frontier.find? (·.1 == target) with
+        | some (_, w) => w.reverse
+        | none =>
+          let (seen, next) := frontier.foldl (fun (acc : Array Bool × List (Nat × List UInt8)) (q, w) =>
+            allBytes.foldl (fun (acc : Array Bool × List (Nat × List UInt8)) c =>
+              let (seen, next) := acc
+              let q' := B.next anch q c
+              if q' < n && !(seen.getD q' true) then (seen.set! q' true, (q', c :: w) :: next) else (seen, next)) acc)
+            (seen, [])
+          if next.isEmpty then [] else go seen next.reverse
+    if b0 < n then go ((Array.replicate n false).set! b0 true) [(b0, [])] else []
+
 /-- first failing (state, byte) of a certificate, for the replay file -/
 def certDiag {σ : Type} [DecidableEq σ] (A : Aut σ UInt8) (B : Aut Nat UInt8) (n : Nat)
     (anch first : Bool) (f : Array (Option σ)) (show_ : σ → String) : String :=
@@ -442,11 +463,11 @@ def certDiag {σ : Type} [DecidableEq σ] (A : Aut σ UInt8) (B : Aut Nat UInt8)
       match f[b]? with
       | some (some a) =>
         if A.obs first a != B.obs first b then
-          some s!"obs state={b} model={show_ a} modelobs={repr (A.obs first a)} implobs={repr (B.obs first b)}"
+          some s!"obs state={b} path={hex (pathTo B n anch b)} model={show_ a} modelobs={repr (A.obs first a)} implobs={repr (B.obs first b)}"
         else
           allBytes.findSome? fun c =>
             if f[B.next anch b c]? == some (some (A.next anch a c)) then none
-            else some s!"step state={b} model={show_ a} byte={c.toNat} modelnext={show_ (A.next anch a c)} implnext={B.next anch b c}"
+            else some s!"step state={b} path={hex (pathTo B n anch b ++ [c])} model={show_ a} byte={c.toNat} modelnext={show_ (A.next anch a c)} implnext={B.next anch b c}"
       | _ => none
     bad.getD "unknown"
 
@@ -522,12 +543,14 @@ def answerCertL1c (r : Req) : String :=
       let fold := r.flag "fold"
       let N := CNfa.compile k fold P
       let A := N.toAut k P T.hasPre
-      let res := [false, true].map fun anch =>
+      let first := r.flag "first"
+      let modes := r.getD "modes" "01"
+      let res := ([false, true].filter fun a => modes.contains (if a then '1' else '0')).map fun anch =>
         let f := buildSim A B n anch
-        let ok := certOk A B n anch false f allBytes
-        (anch, ok, if ok then "ok" else certDiag A B n anch false f toString)
+        let ok := certOk A B n anch first f allBytes
+        (anch, ok, if ok then "ok" else certDiag A B n anch first f toString)
       let f := buildSim A B n false
-      let failsOk := (List.range n).all fun b =>
+      let failsOk := r.getD "failsmode" "" != "model" || (List.range n).all fun b =>
         match f[b]?, T.states[b]? with
         | some (some a), some st =>
           allBytes.all fun c => st.fails.getD c.toNat 0 == (CNfa.nextState N false (N.size + 1) a c 0).2
